@@ -138,6 +138,14 @@ func (m *Monitor) polkaValues(node int, k hrt) []string {
 	return out
 }
 
+// NoteDelivered tells the oracle about a vote that reached node n outside Sim.Deliver (a harness that feeds
+// the node's reactor directly): only correctly attributed, correctly signed votes are recorded.
+func (m *Monitor) NoteDelivered(n *Node, v *types.Vote) {
+	if v != nil {
+		m.recordDelivered(n.ID, v)
+	}
+}
+
 func (m *Monitor) OnDeliver(n *Node, pm *PoolMsg) {
 	if vm, ok := pm.Msg.(*cs.VoteMessage); ok {
 		m.recordDelivered(n.ID, vm.Vote)
